@@ -81,7 +81,7 @@ async fn child_announce(touch: bool, client: &str, servers: Vec<String>) -> Vec<
                             announced = true;
                             let m = StringMap::from_bytes(payload);
                             let md5 = m.get("padding-md5").cloned().unwrap_or_default();
-                            let _ = tx.send(json!({"ev": "announce", "k": k, "scheme": name_of_md5(&md5)}));
+                            let _ = tx.send(json!({"ev": "announce", "k": k, "scheme": name_of_md5(&md5), "pad0": pad}));
                             if md5 != md5_of(text_of(&scheme)) { let _ = tls.write_all(&frame_bytes(6, 0, text_of(&scheme).as_bytes())).await; }
                             let _ = tls.write_all(&frame_bytes(10, 0, b"v=2")).await;
                         }
